@@ -150,6 +150,10 @@ def run_model_check(prop, tier, seed, profiles=None, extra_filter=None):
                         'pos': v['pos'], 'pending': v.get('pending'),
                         'window': engine.short_trace(res[cfg][i].recs, max(0, v['pos'] - 12), 20)})
                     violations.append((rp, m, cfg, v['rule'], v['expected'], v['got']))
+    if prop == 'C12':
+        mc = memcheck_part(prop, tier, seed, known, known_hits, violations, ev)
+        if mc:
+            harness_problems += mc
     ev.violations = len(violations)
     ev.extra.update({'accepted_runs': accepted, 'foreign_abandoned_runs': foreign,
                      'known_finding_hits': known_hits, 'trace_records_checked': counts['records'],
@@ -183,6 +187,71 @@ def run_model_check(prop, tier, seed, profiles=None, extra_filter=None):
         print('INCONCLUSIVE: coverage floor not reached (%d < %d)' % (len(ev.distinct), floor))
         return 2
     return 0
+
+
+MEMCHECK_SETS = {
+    'quick': [('m06', ['mf', 'mc', 'b']), ('m11', ['mf', 'b11'])],
+    'thorough': [('m06', None), ('m11', None), ('m03', None), ('m05', None), ('m07', None)],
+}
+
+
+def memcheck_part(prop, tier, seed, known, known_hits, violations, ev):
+    """'the outcome does not depend on uninitialised data': the failpoint workload under valgrind memcheck"""
+    from . import memcheck
+    n = 10 if tier == 'quick' else 40
+    hs = [engine.Harness(m, cfgs, mode='vg') for m, cfgs in MEMCHECK_SETS[tier]]
+    errs = engine.build_harnesses(hs)
+    if errs:
+        return [('memcheck-build', e[:300]) for e in errs]
+    jobs, meta = [], []
+    for h in hs:
+        scripts = scripts_for(h, seed + 99, n, dict(fail=0.5, effects=0.15, enqueue=0.1))
+        for cfg in h.cfgs:
+            for s in scripts:
+                jobs.append((h.bins[cfg], s))
+                meta.append((h.name, cfg, s))
+    results = memcheck.run_many(jobs)
+    clean = 0
+    problems = []
+    for (m, cfg, s), r in zip(meta, results):
+        ev.evaluations += 1
+        if r['status'] == 'clean':
+            clean += 1
+            import zlib; ev.distinct.add(('memcheck', m, cfg, zlib.crc32(s.encode()) % 5))
+            continue
+        if r['status'] == 'timeout':
+            problems.append(('memcheck-timeout', m, cfg))
+            continue
+        sig = '%s|%s|%s' % (m, r.get('head', ''), r.get('where', ''))
+        k = engine.match_known(known, prop, build.FAMNAME[cfg], 'memcheck', sig)
+        if k:
+            known_hits[k['id']] = known_hits.get(k['id'], 0) + 1
+            continue
+        rp = engine.write_replay(prop, {'kind': 'memcheck', 'property': prop, 'machine': m, 'cfg': cfg, 'script': s,
+                                        'rule': 'memcheck', 'expected': 'no memcheck report',
+                                        'got': r.get('head', ''), 'where': r.get('where', ''), 'report': r['report'][:3000]})
+        violations.append((rp, m, cfg, 'memcheck', 'no valgrind memcheck report', '%s at %s' % (r.get('head'), r.get('where'))))
+    ev.extra['memcheck_runs'] = len(jobs)
+    ev.extra['memcheck_clean'] = clean
+    return problems
+
+
+def replay_memcheck(path):
+    from . import memcheck
+    d = json.load(open(path))
+    h = engine.Harness(d['machine'], [d['cfg']], mode='vg')
+    errs = engine.build_harnesses([h])
+    if errs:
+        print('\n'.join(errs))
+        return 2
+    r = memcheck.run_one(h.bins[d['cfg']], d['script'])
+    print(r['status'], r.get('head', ''), r.get('where', ''))
+    print(r.get('report', '')[:3000])
+    if r['status'] == 'clean':
+        print('ACCEPTED: no memcheck report on the current tree')
+        return 0
+    print('VIOLATION property=%s replay=%s' % (d['property'], path))
+    return 1
 
 
 def replay(path):
